@@ -15,6 +15,8 @@ import (
 	"encoding/json"
 	"fmt"
 	"net"
+	"os"
+	"path/filepath"
 	"runtime"
 	"sort"
 	"strconv"
@@ -43,6 +45,8 @@ const (
 	kAuth            = "authenticate"
 	kAuthUnknown     = "authenticate-unregistered"
 )
+
+var sockSeq int64
 
 var kinds = []string{kFetchAuthorized, kFetchUnknown, kToken, kAuth, kAuthUnknown}
 
@@ -96,21 +100,29 @@ func newWorld(seed int64) *world {
 }
 
 // yieldingListener makes the base Accept a scheduling point and records which
-// connection each handler thread obtained.
+// connection each handler thread obtained. Clients connect one after the other
+// before any Accept, and the kernel's accept queue is FIFO, so the k-th
+// accepted connection is the k-th client.
 type yieldingListener struct {
 	net.Listener
-	mu     sync.Mutex
-	byPort map[string]int // client local address -> client index
-	got    map[int]int    // handler thread id -> client index
+	mu    sync.Mutex
+	order []int // client index of the k-th connection
+	next  int
+	got   map[int]int // handler thread id -> client index
 }
 
 func (y *yieldingListener) Accept() (net.Conn, error) {
 	vrt.Yield("base.Accept")
+	y.mu.Lock()
+	defer y.mu.Unlock() // accept and numbering are one step
 	c, err := y.Listener.Accept()
 	if err == nil {
-		y.mu.Lock()
-		y.got[handlerID()] = y.byPort[c.RemoteAddr().String()]
-		y.mu.Unlock()
+		ci := -1
+		if y.next < len(y.order) {
+			ci = y.order[y.next]
+		}
+		y.next++
+		y.got[handlerID()] = ci
 	}
 	return c, err
 }
@@ -217,11 +229,17 @@ func (w *world) body(sc scenario) (*obs, func(), *harness.MemStore) {
 	for i := range opts {
 		opts[i] = []nodeenrollment.Option{nodeenrollment.WithLogger(hclog.NewNullLogger()), nodeenrollment.WithMaximumServerLedActivationTokenLifetime(time.Hour), nodeenrollment.WithNotBeforeClockSkew(-5 * time.Minute)}[i%3]
 	}
-	inner, err := net.Listen("tcp", "127.0.0.1:0")
+	// unix socket: no ephemeral ports to exhaust over many thousand executions
+	sockSeq++
+	sockDir := filepath.Join(os.TempDir(), fmt.Sprintf("vf15-%d", os.Getpid()))
+	os.MkdirAll(sockDir, 0o700)
+	sockPath := filepath.Join(sockDir, fmt.Sprintf("s%d.sock", sockSeq))
+	os.Remove(sockPath)
+	inner, err := net.Listen("unix", sockPath)
 	if err != nil {
 		panic(err)
 	}
-	yl := &yieldingListener{Listener: inner, byPort: map[string]int{}, got: map[int]int{}}
+	yl := &yieldingListener{Listener: inner, got: map[int]int{}}
 	ln, err := protocol.NewInterceptingListener(&protocol.InterceptingListenerConfiguration{
 		Context: harness.Ctx, Storage: st, BaseListener: yl, Options: opts,
 		FetchCredsFunc: func(ctx2 context.Context, s nodeenrollment.Storage, req *types.FetchNodeCredentialsRequest, opt ...nodeenrollment.Option) (*types.FetchNodeCredentialsResponse, error) {
@@ -246,11 +264,11 @@ func (w *world) body(sc scenario) (*obs, func(), *harness.MemStore) {
 		if kind == "" {
 			continue
 		}
-		c, err := net.DialTimeout("tcp", inner.Addr().String(), 10*time.Second)
+		c, err := net.DialTimeout("unix", sockPath, 10*time.Second)
 		if err != nil {
 			panic(err)
 		}
-		yl.byPort[c.LocalAddr().String()] = i
+		yl.order = append(yl.order, i)
 		conns[i] = c
 	}
 	var cwg sync.WaitGroup
@@ -331,6 +349,7 @@ func (w *world) body(sc scenario) (*obs, func(), *harness.MemStore) {
 	wait := func() {
 		cwg.Wait()
 		inner.Close()
+		os.Remove(sockPath)
 		// record effects per client
 		for i, kind := range sc.Clients {
 			var k *harness.CertKey
@@ -551,7 +570,7 @@ func init() {
 	engine.Register(&engine.CheckDef{
 		ID:    "C15",
 		Level: "exploration",
-		Rule: "one real InterceptingListener over real loopback connections; 2 (thorough also 3) handler threads each running one Accept for clients of kinds {fetch by an authorized node, fetch by an unknown node, token enrollment carrying its own state, authentication with its own client state and extra protocols, authentication by an unregistered key}, for application option slices of length 0/1/2 with spare capacity 0/1/4 and of every length 3..9 with exact capacity; every schedule with at most 2 (thorough 3) preemptions over the scheduling points {every storage call, entry/exit of the fetch and certificate functions, base Accept}; oracle: each connection's (server result, reported state and protocols, client-side answer, created record's state) equals its outcome when handled alone; " +
+		Rule: "one real InterceptingListener over real (unix-socket) connections; 2 (thorough also 3) handler threads each running one Accept for clients of kinds {fetch by an authorized node, fetch by an unknown node, token enrollment carrying its own state, authentication with its own client state and extra protocols, authentication by an unregistered key}, for application option slices of length 0/1/2 with spare capacity 0/1/4 and of every length 3..9 with exact capacity; every schedule with at most 2 (thorough 3) preemptions over the scheduling points {every storage call, entry/exit of the fetch and certificate functions, base Accept}; oracle: each connection's (server result, reported state and protocols, client-side answer, created record's state) equals its outcome when handled alone; " +
 			"evaluations = schedules executed; distinct_nontrivial = scenarios explored",
 		Assumptions: []string{"code between two scheduling points of one handshake runs atomically w.r.t. the other handshakes (scheduling points are where shared state can be touched: storage and the shared option slice around the function calls); unsynchronised accesses inside those blocks are the -race companion's job", "clients are storage-independent (distinct keys and tokens), so the sequential outcome of each is order-independent"},
 		Shards:      func(c *engine.Ctx) int { return 16 },
